@@ -46,9 +46,19 @@ type sys struct {
 	baseDump []string
 
 	seenSig map[string]bool
+	nAt     []int // operations applicable at level i (1-based)
 }
 
-func (s *sys) NumOps() int           { return len(s.ops) }
+// NumOps is the number of operations that apply at the next level (a prefix of
+// the list, which is sorted by decreasing MaxLevel).
+func (s *sys) NumOps() int {
+	if l := s.depth + 1; l < len(s.nAt) {
+		return s.nAt[l]
+	}
+
+	return 0
+}
+
 func (s *sys) OpString(i int) string { return s.ops[i].String() }
 func (s *sys) Close()                {}
 func (s *sys) Key() string           { return s.lastKey }
@@ -542,7 +552,8 @@ func (s *sys) Step(op int) bfs.StepResult {
 	o := s.ops[op]
 
 	if s.depth+1 > o.MaxLevel {
-		return bfs.StepResult{Key: s.lastKey, Outcome: "n/a"}
+		// cannot happen through bfs (NumOps is the applicable prefix)
+		return bfs.StepResult{Key: s.lastKey, Outcome: "not-applicable-at-this-level"}
 	}
 
 	// (MemFile.Chdir stores the name as given to Open: clean before use)
